@@ -34,7 +34,7 @@ from saml2_tophat import saml, samlp, sigver, class_name, extension_elements_to_
 from saml2_tophat import BINDING_HTTP_POST, BINDING_SOAP
 
 CLAIM = {
-    "text": "Coq theorems (Props/C01.v, all closed under the global context) about Model/Xsw.v: symbolic documents of unbounded size (elements and ds:Signature nodes that record, per Reference, the URI and the digested content itself, the signing key and whether the value is intact), the node selection of `xmlsec1 --verify --id-attr:ID <name> [--node-id <id>]` as the stand-in tool implements it (registered IDs, first ds:Signature in document order at or below the start node, references resolved through registered IDs, enveloped removal, key from the command line) for all three duplicate-ID policies (fail / first / last), and the pre-check sigver._enveloped_signature_ok that the PROPOSED repair proposed_fix/C01-1.diff adds to SecurityContext._check_signature (the committed check expects /repo + that diff). Proved by induction over trees and paths: C01_relied_is_covered - whenever _check_signature's decision (pre-check and some candidate certificate verifies) is positive, the ID is non-empty, exactly one node of the whole document carries it and it is the element X of the asked name, X has exactly one Signature child, that child is the first signature in document order inside X (the one the tool processed), it has the single reference '#'+ID, an intact value under a key of the candidate certificates, and the digested content is exactly X minus that child; C01_verify_ok_covered - what a positive answer of the tool alone means (nothing ties the referenced elements to the start node); C01_mutation_rejected / C01_accepted_content_was_signed - for ANY document assembled from parts of a document d0, arbitrary new elements and IDs, signatures not valid under a protected key and re-dressed copies of d0's signatures (this closure contains every edit / move / copy / wrap / nest / relocate / duplicate-signature / duplicate-ID mutation of the quantifier), acceptance implies that the element relied upon minus its signature child is a content a protected key signed in d0 under that same ID; C01_pipeline_relied_covered and C01_identity_from_processed_assertions - composed with C02's accept_iff over the SP pipeline model: an accepted response has every signature pysaml2 saw covering its element, want_response_signed => the response element is covered, want_assertions_signed => every assertion the application reads (plain or decrypted) is covered, want_assertions_or_response_signed => one of the two, and the assertions handed to the application are among those processed, UNDER THE HYPOTHESIS that a recorded positive verdict was produced by _check_signature on the text handed to the tool with that element's name and ID; C01_before_fix_refuted + 7 more wrapping shapes - without the pre-check (the code of /repo before the repair) the statement is false: a wrapped document assembled from a genuine one is accepted with an element that is not covered, under every duplicate-ID policy. ONLY TESTED (every run): that model and code agree - unit tool_verify (model vs SecurityContext.verify_signature through the stand-in tool) and unit check_item (model vs correctly_signed_response / check_signature on the received and on the re-serialised decrypted text) on genuine and mutated real documents; the composition hypothesis and 'the identity is read from the covered element' - by the end-to-end oracle (accepted => name id, attributes, session expiry, InResponseTo of the signed original; all 8 requirement settings, 3 tool policies, 5 RSA-SHA algorithms, plain and encrypted, further configuration switches) and by re-checking every positive _check_signature verdict on the real XML with real digests and RSA; that the library's own signed output passes the pre-check.",
+    "text": "Coq theorems (Props/C01.v, all closed under the global context) about Model/Xsw.v: symbolic documents of unbounded size (elements and ds:Signature nodes that record, per Reference, the URI and the digested content itself, the signing key and whether the value is intact), the node selection of `xmlsec1 --verify --id-attr:ID <name> [--node-id <id>]` as the stand-in tool implements it (registered IDs, first ds:Signature in document order at or below the start node, references resolved through registered IDs, enveloped removal, key from the command line) for all three duplicate-ID policies (fail / first / last), and the pre-check sigver._enveloped_signature_ok that the PROPOSED repair proposed_fix/C01-1.diff adds to SecurityContext._check_signature (the committed check expects /repo + that diff). Proved by induction over trees and paths: C01_relied_is_covered - whenever _check_signature's decision (pre-check and some candidate certificate verifies) is positive, the ID is non-empty, exactly one node of the whole document carries it and it is the element X of the asked name, X has exactly one Signature child, that child is the first signature in document order inside X (the one the tool processed), it has the single reference '#'+ID, an intact value under a key of the candidate certificates, and the digested content is exactly X minus that child; C01_verify_ok_covered - what a positive answer of the tool alone means (nothing ties the referenced elements to the start node); C01_mutation_rejected / C01_accepted_content_was_signed - for ANY document assembled from parts of a document d0, arbitrary new elements and IDs, signatures not valid under a protected key and re-dressed copies of d0's signatures (this closure contains every edit / move / copy / wrap / nest / relocate / duplicate-signature / duplicate-ID mutation of the quantifier), acceptance implies that the element relied upon minus its signature child is a content a protected key signed in d0 under that same ID (C01_mutations_compose: the closure is reflexive and transitive, so sequences of mutations are covered); C01_pipeline_relied_covered and C01_identity_from_processed_assertions - composed with C02's accept_iff over the SP pipeline model: an accepted response has every signature pysaml2 saw covering its element, want_response_signed => the response element is covered, want_assertions_signed => every assertion the application reads (plain or decrypted) is covered, want_assertions_or_response_signed => one of the two, and the assertions handed to the application are among those processed, UNDER THE HYPOTHESIS that a recorded positive verdict was produced by _check_signature on the text handed to the tool with that element's name and ID; C01_before_fix_refuted + 7 more wrapping shapes - without the pre-check (the code of /repo before the repair) the statement is false: a wrapped document assembled from a genuine one is accepted with an element that is not covered, under every duplicate-ID policy. ONLY TESTED (every run): that model and code agree - unit tool_verify (model vs SecurityContext.verify_signature through the stand-in tool) and unit check_item (model vs correctly_signed_response / check_signature on the received and on the re-serialised decrypted text) on genuine and mutated real documents; the composition hypothesis and 'the identity is read from the covered element' - by the end-to-end oracle (accepted => name id, attributes, session expiry, InResponseTo of the signed original; all 8 requirement settings, 3 tool policies, 5 RSA-SHA algorithms, plain and encrypted, further configuration switches) and by re-checking every positive _check_signature verdict on the real XML with real digests and RSA; that the library's own signed output passes the pre-check.",
     "note": "Partial w.r.t. the real xmlsec1 (not installed): the tool semantics are those of the stand-in (DESIGN.md 4.3); xml:id / DTD-declared IDs are not modelled (the pre-check counts ID carriers over all elements whatever their name). Trusted: Coq kernel + vm_compute; symbolic cryptography (a digest is its preimage, a valid signature value implies the key owner signed that SignedInfo); the symbolic twin of real documents (harness/xswdoc.py). On /repo WITHOUT proposed_fix/C01-1.diff the check reports the signature-wrapping defect (F6): e.g. 'wrap-assertion:Extensions:orig-stripped:new-id' is accepted with the forged identity. Advice assertions are outside Model/Response.v; metadata verification (mdstore) does not go through _check_signature.",
     "technique": "machine-checked proof (Coq, induction over document trees and paths; Dolev-Yao closure for the mutation quantifier) + correspondence on real signed and mutated documents + implementation-level oracles",
 }
@@ -511,9 +511,35 @@ def replay(ctx, payload):
     xml = inp.get("xml")
     if not xml:
         return 0
-    with env.Clock(NOW):
-        set_policy(inp.get("policy", "fail"))
-        st = inp.get("setting") or (True, True, False)
-        case = SPCase(wrs=st[0], was=st[1], waors=st[2])
-        print("implementation outcome:", resp.observe(case.sp(), xml))
-    return 0
+    saved_pol = os.environ.get("PV_XMLSEC_DUP")
+    bad = 0
+    try:
+        with env.Clock(NOW):
+            set_policy(inp.get("policy", "fail"))
+            if inp.get("unit") == "check_item":
+                sp1 = SPCase(wrs=True, was=True).sp()
+                text = xml if inp.get("stage") != "decrypted" else decrypted_text(sp1, xml)
+                for item, nm, px, what in items_of(text):
+                    if what != inp.get("what") or not item.signature:
+                        continue
+                    r = call(sp1.sec.correctly_signed_response, text) if what == "response" else call(sp1.sec.check_signature, item, nm, text)
+                    ok = not isinstance(r, Exn) and bool(r)
+                    why = really_covered(text, nm, item.id, [env.cert("idp")]) if ok else None
+                    print("_check_signature on the %s (ID %r): %s%s" % (what, item.id, "accepted" if ok else "refused (%s)" % (r,),
+                                                                      "; NOT covered: " + why if why else ""))
+                    bad += 1 if why else 0
+            else:
+                lvl = {"response": (True, False, False), "assertion": (False, True, False), "both": (True, True, False)}
+                st = inp.get("setting") or lvl.get(inp.get("level"), (True, True, False))
+                sp = dict(variant_sps(tuple(st))).get(inp.get("variant")) if inp.get("variant") else SPCase(wrs=st[0], was=st[1], waors=st[2]).sp()
+                got = resp.observe(sp, xml)
+                print("implementation outcome:", got)
+                if isinstance(got, list) and inp.get("doc") != "genuine" and got[1] != xswdoc.IDENT["name_id"]:
+                    bad += 1
+    finally:
+        if saved_pol is None:
+            os.environ.pop("PV_XMLSEC_DUP", None)
+        else:
+            os.environ["PV_XMLSEC_DUP"] = saved_pol
+    print("reproduces" if bad else "does not reproduce on this tree")
+    return 1 if bad else 0
